@@ -101,6 +101,8 @@ structure FObj where
   flitem : Option Item := none
   fpos : Nat := 0
   fsize : Nat := 0
+  /-- `sequence_types` of a typed inline function (parameter types, result type) -/
+  sig : Option Sig := none
   deriving Repr, Inhabited
 
 structure St where
@@ -209,11 +211,23 @@ def callFn (c : ICtx) (D : Env) (a : Nat) (args : List Seq) : IM (Seq × Env) :=
       let vars ← currentVars cfg o
       match o.fixed with
       | some pat => do
+        -- the `'inline partial function'` loop binds `zipFill ps pat args` = `ps.zip (fill pat args)`
+        -- (`zipFill_eq`); `get_argument` converts the supplied arguments, the fixed ones were
+        -- converted when the partial application was evaluated (the conversion is idempotent)
         IM.flag { arity := decide (pat.length ≠ ps.length) }
-        runBody cfg ev c D body (zipFill ps pat args) vars.1 vars.2
+        let conv ← IM.lift (sigArgs o.sig (fill pat args))
+        let r ← runBody cfg ev c D body (ps.zip conv) vars.1 vars.2
+        let v ← IM.lift (sigRes o.sig r.1)
+        pure (v, r.2)
       | none =>
         -- repaired code: `if len(args) != len(self.varnames): raise XPTY0004`
-        if args.length = ps.length then runBody cfg ev c D body (ps.zip args) vars.1 vars.2
+        if args.length = ps.length then do
+          -- `context.variables[varname] = get_argument(value)`: function conversion rules
+          let conv ← IM.lift (sigArgs o.sig args)
+          let r ← runBody cfg ev c D body (ps.zip conv) vars.1 vars.2
+          -- `self.validated_result(result)`
+          let v ← IM.lift (sigRes o.sig r.1)
+          pure (v, r.2)
         else IM.throw .XPTY0004
     else IM.throw .XPTY0004
 
@@ -244,8 +258,10 @@ def partialApply (c : ICtx) (D : Env) (a : Nat) (args : List (Option Expr)) : IM
     let vars ← currentVars cfg o
     let r ← evalArgs ev c D args
     let pat := match o.fixed with | none => r.1 | some old => refill old r.1
-    let n ← IM.alloc { tok := none, code := o.code, env := vars.1, lex := vars.2, fixed := some pat,
-                       fitem := o.fitem, flitem := o.flitem, fpos := o.fpos, fsize := o.fsize }
+    -- `tk.value = func.convert_argument(...)` for the fixed arguments of an inline function
+    let pat' ← IM.lift (sigPat o.sig pat)
+    let n ← IM.alloc { tok := none, code := o.code, env := vars.1, lex := vars.2, fixed := some pat',
+                       fitem := o.fitem, flitem := o.flitem, fpos := o.fpos, fsize := o.fsize, sig := o.sig }
     pure ([.fn n], r.2)
   else IM.throw .XPTY0004
 
@@ -411,6 +427,11 @@ def step (e : Expr) (c : ICtx) (D : Env) : IM (Seq × Env) :=
     -- repaired: func = copy(self); func.variables = context.variables.copy(); return func
     if cfg.share then IM.setSlot t (D, c.lex) else pure ()
     let n ← IM.alloc { tok := some t, code := .inline ps body, env := some D, lex := c.lex, fixed := none }
+    pure ([.fn n], D)
+  | .tfnE t ps tys rt body => do
+    if cfg.share then IM.setSlot t (D, c.lex) else pure ()
+    let n ← IM.alloc { tok := some t, code := .inline ps body, env := some D, lex := c.lex, fixed := none,
+                       sig := some (tys, rt) }
     pure ([.fn n], D)
   | .named b => do
     -- a fresh token per evaluation, `func.context = copy(context)`
